@@ -627,7 +627,10 @@ def gen_valid_deck(rng, features=None):
             a = {'id': base + 2 * axis + 1, 'tr': None, 'mn': mn, 'params': [hi]}
             b = {'id': base + 2 * axis + 2, 'tr': None, 'mn': mn, 'params': [lo]}
             deck['surfs'] += [a, b]
-            planes += [[-a['id'], None], [b['id'], None]]
+            if rng.random() < 0.3:
+                planes += [[b['id'], None], [-a['id'], None]]
+            else:
+                planes += [[-a['id'], None], [b['id'], None]]
         ranges = []
         for axis in range(ndim):
             lo = rng.choice([-1, 0, 0])
@@ -655,6 +658,11 @@ def gen_valid_deck(rng, features=None):
             latcell['opts'] = (f'u={lat_u} lat={2 if hexa else 1} fill='
                                + ' '.join(f'{lo}:{hi}' for lo, hi in written)
                                + ' ' + ' '.join(str(u) for u in array))
+        if 'trcl' in features and not hexa and rng.random() < 0.4:
+            # a lattice cell moved as a whole
+            latcell['opts'] = latcell['opts'].replace(
+                ' fill=', ' trcl=(' + ' '.join(
+                    num(_c(rng)) for _ in range(3)) + ') fill=', 1)
         latcell['ranges'] = written
         latcell['ndim'] = ndim
         sub = new_cell(lits_of(rng.randint(1, 2), False))
@@ -1096,6 +1104,54 @@ def f_tr_card_short(deck, rng):
 
 
 NEUTRAL = {'tr_card_short'}
+# fault classes whose outcome depends on geometry the validation model does not
+# hold (C07 models the hexagon walk, C02 the numbering of cone pieces): swept
+# with the property oracle, not compared with the model
+SWEEP_ONLY = {'hex_nonprism', 'cone_selector'}
+
+
+def f_hex_nonprism(deck, rng):
+    '''LAT=2 cell bounded by six planes that are no hexagonal prism (the first
+    two are not even parallel).'''
+    out = []
+    for k in _lat_cells(deck):
+        cell0 = deck['cells'][k]
+        if 'lat=2' not in cell0['opts'] or cell0['ndim'] != 2:
+            continue
+        d = _clone(deck)
+        cell = d['cells'][k]
+        ids = [abs(l[0]) for l in cell['lits']]
+        surfs = {s['id']: s for s in d['surfs']}
+        while True:
+            normals = [[rng.choice([-1.0, 0.0, 1.0, 0.5, -0.5, 2.0]) for _ in range(3)]
+                       for _ in range(6)]
+            a, b = normals[0], normals[1]
+            cross = (a[1] * b[2] - a[2] * b[1], a[2] * b[0] - a[0] * b[2],
+                     a[0] * b[1] - a[1] * b[0])
+            if all(any(n) for n in normals) and any(cross):
+                break
+        for sid, nrm in zip(ids, normals):
+            surfs[sid]['mn'] = 'p'
+            surfs[sid]['params'] = nrm + [rng.choice([-2.0, -1.0, -0.5, 0.5, 1.0, 1.5, 2.0])]
+        cell['lits'] = [[rng.choice([1, -1]) * sid, None] for sid in ids]
+        out.append((d, f'cell {cell["id"]} six arbitrary planes'))
+    return out
+
+
+def f_cone_selector(deck, rng):
+    '''One-sheet selector of a cone card that is not +1 / -1.'''
+    out = []
+    for k, surf0 in enumerate(deck['surfs']):
+        n = len(surf0['params'])
+        if not ((surf0['mn'] in ('kx', 'ky', 'kz') and n in (2, 3))
+                or (surf0['mn'] in ('k/x', 'k/y', 'k/z') and n in (4, 5))):
+            continue
+        d = _clone(deck)
+        surf = d['surfs'][k]
+        base = 2 if surf['mn'] in ('kx', 'ky', 'kz') else 4
+        surf['params'] = surf['params'][:base] + [rng.choice([2.0, -2.0, 3.0, -3.0, 5.0])]
+        out.append((d, f'surface {surf["id"]} {surf["mn"]} selector {surf["params"][-1]}'))
+    return out[:3]
 
 
 def _array_cells(deck):
@@ -1270,6 +1326,8 @@ FAULTS = {
     'facet_range_filler': (f_facet_range_filler, ['fill']),
     'tr_card_arity': (f_tr_card_arity, ['tr']),
     'tr_card_short': (f_tr_card_short, ['tr']),
+    'hex_nonprism': (f_hex_nonprism, ['lat']),
+    'cone_selector': (f_cone_selector, []),
     'fill_array_len': (f_fill_array_len, ['lat']),
     'fill_array_plus3': (f_fill_array_plus3, ['lat']),
     'fill_array_surplus_tr': (f_fill_array_surplus_tr, ['lat', 'tr']),
